@@ -680,3 +680,25 @@ Section Step.
     - apply IH. apply do_op_inv; auto.
   Qed.
 End Step.
+
+(** ** the tags refine the states of the refcount protocol P1: a cell's unref
+    is the automaton's unref (followed, at zero, by its put) *)
+From PQ Require Import Conc.Refcount.
+
+Definition tag_of_bstate (s : bstate) : option tag :=
+  match s with
+  | BLive true n => Some (TLive n)
+  | BNew | BPooled | BZero => Some TPooled
+  | _ => None
+  end.
+
+Lemma unref_refines_P1 : forall x n o k,
+  ctag x = TLive (S n) ->
+  exists s', buf_step (BLive true (S n)) EUnref = Some s' /\
+             tag_of_bstate s' = Some (ctag (unref_cell x o k)) /\
+             (n = 0 -> buf_step s' EPut = Some BPooled).
+Proof.
+  intros x n o k Ht. unfold unref_cell. rewrite Ht. destruct n as [|m]; simpl.
+  - exists BZero. auto.
+  - exists (BLive true (S m)). repeat split; auto. intros H; discriminate.
+Qed.
